@@ -286,6 +286,25 @@ class _KalEval:
             if isinstance(st, ast.Assign) and len(st.targets) == 1 and \
                     isinstance(st.targets[0], ast.Name):
                 self.env[st.targets[0].id] = self.ev(st.value)
+            elif isinstance(st, ast.AugAssign) and isinstance(st.op, (ast.Add, ast.Sub)) and \
+                    isinstance(st.target, ast.Name) and st.target.id in self.env:
+                d = self.ev(st.value)
+                self.env[st.target.id] = self.A.add(self.env[st.target.id], d,
+                                                    1 if isinstance(st.op, ast.Add) else -1)
+            elif isinstance(st, ast.AugAssign) and isinstance(st.op, (ast.Add, ast.Sub)) and \
+                    isinstance(st.target, ast.Subscript) and \
+                    isinstance(st.target.value, ast.Name) and st.target.value.id in self.env and \
+                    isinstance(st.target.slice, ast.Call) and \
+                    (self.res(st.target.slice.func) or '') in ('numpy.diag_indices_from',
+                                                               'numpy.diag_indices'):
+                # X[np.diag_indices_from(X)] += c   ==   X += c * I
+                c = self.const_bool(st.value)
+                if isinstance(c, (int, float)) and not isinstance(c, bool):
+                    d = self.A.scale(self.A.ident(), Fraction(repr(c)))
+                else:
+                    d = self.A.atom('jitter(%s)' % norm_text(st.value)[:20])
+                nm = st.target.value.id
+                self.env[nm] = self.A.add(self.env[nm], d, 1 if isinstance(st.op, ast.Add) else -1)
             elif isinstance(st, ast.Return):
                 v = st.value
                 elts = v.elts if isinstance(v, ast.Tuple) else [v]
@@ -366,6 +385,80 @@ def kal_rules(ctx):
 
 
 # ------------------------------------------------------------------- Van Loan
+def _vl_exact_shortcut(f, st, F, Q, dt, res):
+    """A conditional early return of compute_process_matrices that is exact by the semigroup law:
+    halving and doubling - (Ph, Qh) = self(F, Q, dt / 2), return (Ph Ph, Ph Qh Ph^T + Qh) - or
+    the zero step (I, 0) under `dt == 0`.  -> (ok, what, why) or None when the shape is not one
+    of these."""
+    A = NCAlg(symmetric=('Qh',))
+    env = {}
+    rec = None
+    for s2 in st.body:
+        if isinstance(s2, ast.Expr) and isinstance(s2.value, ast.Constant):
+            continue
+        if isinstance(s2, ast.Assign) and isinstance(s2.value, ast.Call) and \
+                norm_text(s2.value.func) == f.name and isinstance(s2.targets[0], ast.Tuple) and \
+                len(s2.targets[0].elts) == 2 and len(s2.value.args) == 3:
+            a0, a1, a2 = s2.value.args
+            half = norm_text(a2) in ('0.5 * %s' % dt, '%s * 0.5' % dt, '%s / 2' % dt,
+                                     '%s / 2.0' % dt)
+            if norm_text(a0) != F or norm_text(a1) != Q or not half:
+                return None
+            env[s2.targets[0].elts[0].id] = A.atom('Ph')
+            env[s2.targets[0].elts[1].id] = A.atom('Qh')
+            rec = s2
+            continue
+        if rec is None and isinstance(s2, ast.Return):
+            # zero step
+            t = norm_text(st.test)
+            v = s2.value
+            if t in ('%s == 0' % dt, '%s == 0.0' % dt, 'not %s' % dt) and \
+                    isinstance(v, ast.Tuple) and len(v.elts) == 2:
+                i_ok = isinstance(v.elts[0], ast.Call) and \
+                    (res(v.elts[0].func) or '') in ('numpy.identity', 'numpy.eye')
+                z_ok = isinstance(v.elts[1], ast.Call) and \
+                    (res(v.elts[1].func) or '') in ('numpy.zeros', 'numpy.zeros_like')
+                return (i_ok and z_ok, 'zero step returns (I, 0)',
+                        'zero-step shortcut returns `%s`, not (identity, zeros)' % norm_text(v)[:60])
+            return None
+        if rec is None:
+            return None
+
+        def ev(e):
+            if isinstance(e, ast.Name) and e.id in env:
+                return env[e.id]
+            if isinstance(e, ast.Attribute) and e.attr == 'T':
+                return A.T(ev(e.value))
+            if isinstance(e, ast.Call) and isinstance(e.func, ast.Attribute) and \
+                    e.func.attr == 'transpose' and not e.args:
+                return A.T(ev(e.func.value))
+            if isinstance(e, ast.Call) and isinstance(e.func, ast.Attribute) and \
+                    e.func.attr == 'dot' and len(e.args) == 1:
+                return A.mul(ev(e.func.value), ev(e.args[0]))
+            if isinstance(e, ast.BinOp) and isinstance(e.op, ast.MatMult):
+                return A.mul(ev(e.left), ev(e.right))
+            if isinstance(e, ast.BinOp) and isinstance(e.op, (ast.Add, ast.Sub)):
+                return A.add(ev(e.left), ev(e.right), 1 if isinstance(e.op, ast.Add) else -1)
+            raise AnalysisError('Van Loan shortcut: `%s`' % norm_text(e)[:50])
+        if isinstance(s2, ast.Assign) and len(s2.targets) == 1 and \
+                isinstance(s2.targets[0], ast.Name):
+            env[s2.targets[0].id] = ev(s2.value)
+            continue
+        if isinstance(s2, ast.Return) and isinstance(s2.value, ast.Tuple) and \
+                len(s2.value.elts) == 2:
+            phi, qd = ev(s2.value.elts[0]), ev(s2.value.elts[1])
+            Ph, Qh = A.atom('Ph'), A.atom('Qh')
+            want_phi = A.mul(Ph, Ph)
+            want_q = A.add(A.mul(A.mul(Ph, Qh), A.T(Ph)), Qh)
+            ok = A.eq(phi, want_phi) and A.eq(qd, want_q)
+            return (ok, 'halved step is re-composed exactly: (Ph Ph, Ph Qh Ph^T + Qh)',
+                    'the halved step is re-composed as (%s, %s); the semigroup law gives '
+                    '(Ph Ph, Ph Qh Ph^T + Qh) with Ph, Qh the matrices of the half step'
+                    % (phi.key()[:60], qd.key()[:80]))
+        return None
+    return None
+
+
 def vl_rules(ctx):
     ctx.rule('VL-BLOCK', 'expm([[F, Q], [0, -F^T]] * dt); returns (E[0,0], E[0,1] @ E[0,0]^T)')
     f = ctx.repo.function('kalman.compute_process_matrices')
@@ -469,6 +562,13 @@ def vl_rules(ctx):
                                        % (norm_text(st.value), big, dt))
             E = st.targets[0].id
             continue
+        if isinstance(st, ast.If) and not st.orelse and \
+                any(isinstance(n, ast.Return) for n in ast.walk(st)):
+            verdict = _vl_exact_shortcut(f, st, F, Q, dt, res)
+            if verdict is not None:
+                ok_, what_, why_ = verdict
+                ctx.ob('VL-BLOCK', ok_, None, what_, f=f, node=st, key='shortcut-exact', why=why_)
+                continue
         if isinstance(st, (ast.If, ast.While, ast.For, ast.Try)) and \
                 any(isinstance(n, ast.Return) for n in ast.walk(st)):
             for r_ in [n for n in ast.walk(st) if isinstance(n, ast.Return)]:
